@@ -611,6 +611,43 @@ func runC20(p *core.Prog, r *core.Report, tier string) {
 			}
 		}
 		r.Floor("C20.2 cancel sites of attestation jobs", nCancel, 1)
+		// who clears the mark: the job itself when it ends (the deferred clear in AttestAndScheduleAggregate), and the
+		// code that has just withdrawn the job (on the success edge of its CancelJob) — nobody else: a failed
+		// ScheduleJob, for one, means "a job of that name exists", and clearing its mark hides a live job from shutdown
+		nClear := 0
+		for _, f := range p.FuncsIn(ctrlRel) {
+			for _, op := range core.MapOps(f) {
+				if op.Kind != "delete" || op.Field != pend {
+					continue
+				}
+				nClear++
+				construct := fmt.Sprintf("%s|clear-of-pending-mark#%d|by-job-end-or-after-withdrawal", core.FnKey(f), nClear)
+				if strings.HasPrefix(outermost(f).Name(), "AttestAndScheduleAggregate") && f.Parent() != nil {
+					r.Hold("C20.2", construct, p.Pos(op.Instr.Pos()), "the job clears its own mark when it ends")
+					continue
+				}
+				var cancels []*ssa.Call
+				for _, ci := range core.CallsNamed(f, "CancelJob") {
+					if c, ok := ci.(*ssa.Call); ok {
+						cancels = append(cancels, c)
+					}
+				}
+				del := op.Instr
+				w := []ssa.Instruction{del}
+				if len(cancels) > 0 {
+					w = core.Unguarded(ds, f, nil, func(x ssa.Instruction) bool { return x == del }, func(c core.Cond) int {
+						for _, call := range cancels {
+							if s := core.ErrNilSucc(c, call); s >= 0 {
+								return s
+							}
+						}
+						return -1
+					})
+				}
+				r.Check(w == nil, "C20.2", construct, p.Pos(del.Pos()), "the mark is cleared only after the job was withdrawn", "the pending mark of a slot is cleared although no attestation job was withdrawn on this path (nor has the job ended): a job that is still set up for the slot is hidden from the shutdown wait", p.WitnessText(w)...)
+			}
+		}
+		r.Floor("C20.2 clears of the pending mark", nClear, 2)
 		// read under lock
 		if hp := p.Func(ctrlRel, "Service", "HasPendingAttestations"); hp != nil {
 			okRead := false
